@@ -31,6 +31,22 @@ PROPS = {
         "hypotheses": [X_NONID],
         "not_decided": ["serde_bare/serde_json round trips of Signature (derive expansion, L-SERDE)"],
     },
+    "C02": {
+        "units": [gen("C02")],
+        "trusted_base": TB_ALGEBRA,
+        "hypotheses": [X_NONID, "X-INJ / X-DSEP (explicit hypotheses of the lemmas): the hash point of another message or under another tag differs"],
+        "not_decided": ["re-randomised projective representations (equal as group elements: the contracts speak about group elements, A-GROUP)"],
+    },
+    "C04": {
+        "units": [gen("C04")],
+        "trusted_base": TB_ALGEBRA,
+        "hypotheses": [],
+    },
+    "C09": {
+        "units": [gen("C09")],
+        "trusted_base": TB_ALGEBRA,
+        "hypotheses": [X_NONID, "X-LIN (explicit hypothesis of c09_rejected_for_other_key): x*H(enc pk) != x'*H(enc pk') for the two keys at hand"],
+    },
 }
 
 NOT_APPLICABLE = {
